@@ -61,6 +61,14 @@ func (c *Conversation) verifySMP1(msg smp1Message) error {
 		return newOtrError("g3a is an invalid group element")
 	}
 
+	if !isExponent(msg.d2) {
+		return newOtrError("D2 is an invalid exponent")
+	}
+
+	if !isExponent(msg.d3) {
+		return newOtrError("D3 is an invalid exponent")
+	}
+
 	if !verifyZKP(msg.d2, msg.g2a, msg.c2, 1, c.version) {
 		return newOtrError("c2 is not a valid zero knowledge proof")
 	}
